@@ -958,8 +958,22 @@ def stall_limit(sc) -> float:
     return 2.0 * m + 2.0
 
 
+_LOCK_DIRTY = True  # (first scenario of a process: start from a clean slate)
+_PRIMED = False
+
+_PRIMER = {'buses': [{'par': False, 'hist': None, 'rank': 1}, {'par': False, 'hist': None, 'rank': 2}], 'fwd': [],
+           'handlers': [{'bus': 0, 'pat': 0, 'kind': 'async', 'prog': [['sleep', 0.05]], 'ret': 'idx'}, {'bus': 1, 'pat': 0, 'kind': 'async', 'prog': [['sleep', 0.05]], 'ret': 'idx'}],
+           'actors': [[['disp', 0, 0], ['disp', 1, 0], ['await', 0]]], 'maxdepth': 1, 'cap': 10, 'warm': False}
+
+
 def run_scenario(sc: dict, *, keep_world: bool = False, spin_budget: int = 60_000) -> dict:
     """Returns a plain-data result: trace, final snapshots, hang info, iteration counts."""
+    global _PRIMED
+    if not _PRIMED:
+        # the process has used the library in an earlier event loop before the first judged scenario (also when a single replay
+        # file is run in a fresh process): per-loop state the library keeps must survive a change of loop
+        _PRIMED = True
+        run_scenario(dict(_PRIMER))
     realtime = bool(os.environ.get('BVT_REALTIME'))
     loop = asyncio.new_event_loop() if realtime else VLoop(spin_budget=spin_budget)
     asyncio.set_event_loop(loop)
@@ -968,8 +982,13 @@ def run_scenario(sc: dict, *, keep_world: bool = False, spin_budget: int = 60_00
     limit = stall_limit(sc)
     import bubus.service as svc
 
-    if hasattr(svc, '_global_eventbus_lock'):
-        svc._global_eventbus_lock = None  # harness hygiene: no lock state leaks between scenarios
+    # Every scenario runs in an event loop of its own, one after the other in one process - like a program that calls asyncio.run()
+    # several times. The library's process-wide lock object therefore lives on from scenario to scenario (it has to notice the new
+    # loop by itself); it is only thrown away after a scenario that ended in a hang, where it may have been left acquired.
+    global _LOCK_DIRTY
+    if _LOCK_DIRTY and hasattr(svc, '_global_eventbus_lock'):
+        svc._global_eventbus_lock = None
+    _LOCK_DIRTY = False
     wal_ctx = None
     if sc.get('wal'):
         from bvt import walshim
@@ -1073,6 +1092,8 @@ def run_scenario(sc: dict, *, keep_world: bool = False, spin_budget: int = 60_00
         out['wal'] = wal_ctx.result
     if keep_world:
         out['world'] = w
+    if out.get('hang') or sc.get('inject') or sc.get('stops'):
+        globals()['_LOCK_DIRTY'] = True  # torn down mid-flight: the lock may have been left acquired
     return out
 
 
